@@ -59,7 +59,7 @@ public:
 
 	// Gets the size of just the main vertex data (position, extra data, bitangentX)
 	uint32_t GetVertexMainSize() {
-		return ((desc & 0xFF00) >> 8) * 4;
+		return ((desc & 0x0F00) >> 8) * 4;
 	}
 
 	// Sets the vertex size
